@@ -29,6 +29,7 @@ V3 = "puresnmp_plugins/mpm/v3.py"
 
 # ---------------------------------------------------------------- reverts of the fix: commits
 patch("rev-D1-multiset-id", "C07", "4406f9b-fix__multiset_validates_the_response_against_the_request_id_.diff")
+patch("rev-D19-lazy-trap-delivered", "C19", "8a9ecff-fix__trap_listener_only_delivers_decoded_notifications.diff")
 patch("rev-D18-untyped-secparams", "C20", "9143978-fix__USM_security_parameters_wrong_ASN1_type_refused.diff")
 patch("rev-D16-usmstats-as-data", "C12", "6a4d84c-fix__usmStats_counters_in_ordinary_responses_are_data.diff")
 patch("rev-D14-unauth-report-status", "C09", "97c83a0-fix__unauthenticated_report_error_status_no_longer_ends_walk.diff")
@@ -169,7 +170,7 @@ patch("rev-D13-trap-decode", "C19", "1aa18a8-fix__trap_listener_decodes_notifica
 text("c19-source-dropped", "C19", RAW, "        trap.source = packet.info\n", "")
 text("c19-source-conditional", "C19", RAW, "        trap.source = packet.info\n", "        if packet.info.port == 162:\n            trap.source = packet.info\n")
 text("c19-callback-twice", "C19", RAW, "        asyncio.ensure_future(callback(trap))\n", "        asyncio.ensure_future(callback(trap))\n        asyncio.ensure_future(callback(trap))\n")
-text("c19-callback-before-decode", "C19", RAW, "        trap = cast(Trap, mproc.decode(packet.data, credentials))\n        trap.source = packet.info\n        asyncio.ensure_future(callback(trap))\n", "        asyncio.ensure_future(callback(as_sequence))\n        trap = cast(Trap, mproc.decode(packet.data, credentials))\n        trap.source = packet.info\n")
+text("c19-callback-before-decode", "C19", RAW, "        trap = cast(Trap, mproc.decode(packet.data, credentials))\n", "        asyncio.ensure_future(callback(as_sequence))\n        trap = cast(Trap, mproc.decode(packet.data, credentials))\n")
 text("c19-mpm-by-const", "C19", RAW, "        mproc = mpm.create(version.value, handler, lcd)\n", "        mproc = mpm.create(1, handler, lcd)\n", note="v1 traps would be refused / v3 not decoded; selector must be the version field")
 text("c19-default-creds", "C19", RAW, "        trap = cast(Trap, mproc.decode(packet.data, credentials))\n", "        trap = cast(Trap, mproc.decode(packet.data, V2C(\"public\")))\n")
 text("c19-receiver-closes", "C19", "puresnmp/transport.py", "        self.callback(SocketResponse(data, SocketInfo(addr[0], addr[1])))\n", "        self.callback(SocketResponse(data, SocketInfo(addr[0], addr[1])))\n        if self.transport:\n            self.transport.close()\n")
